@@ -61,9 +61,14 @@ def check(ctx):
     ctx.require(ok, "R-FLOW", "request:collect_args", "value := resolve().0, tetraplets := resolve().1, one pair per argument", "collect_args no longer pairs each value with its own tetraplets")
     rc = F.fn("resolvable_impl::resolve_const")
     rcp = Prov(rc)
-    lt = rc.calls_to("SecurityTetraplet::literal_tetraplet")
-    ok = len(lt) == 1 and lib.mentions_field(rcp.operand(lt[0].args[0]), "init_peer_id") and all(rc.dominates(lt[0].bb, r) for r in rc.returns) and \
+    # directly or through a thin helper that always builds it (bounded inlining / forwarding)
+    lt = lib.forwarding_calls(F, rc, "SecurityTetraplet::literal_tetraplet")
+    ok = len(lt) == 1 and all(rc.dominates(lt[0][0].bb, r) for r in rc.returns) and \
         not [c for c in rc.calls if c.path.endswith(("SecurityTetraplet::new", "SecurityTetraplet::add_lens"))]
+    if ok:
+        node = Prov(rc, F=F, inline=2)._call(lt[0][0], 0, frozenset())
+        inner = lib.inlined_calls(node, "SecurityTetraplet::literal_tetraplet")
+        ok = len(inner) == 1 and lib.mentions_field(inner[0][2][0], "init_peer_id")
     ctx.require(ok, "R-FLOW", "const:literal-tetraplet", "constants carry literal_tetraplet(init_peer_id) (the only tetraplet built, on every path)", "resolve_const no longer builds exactly literal_tetraplet(init_peer_id)")
     lf = F.fn("polyplets::tetraplet::SecurityTetraplet::literal_tetraplet") if F.find("SecurityTetraplet::literal_tetraplet") else None
     if lf is not None:
